@@ -103,7 +103,7 @@ func heapNow() uint64 {
 }
 
 const memStream = 10 << 20
-const memLimit = 3 << 20
+const memLimit = 5 << 20
 
 // RunMem feeds a 10 MB stream to an endpoint that keeps consuming (data phase with a genuine
 // stream of the right keys, or the obfs4 server discarding after a failed handshake) and
